@@ -4,12 +4,16 @@
      - ChargingStation / ChargeQueueing: vehicle at the station's geoid;  ReserveBase / ChargingBase: at the base's geoid;
      - travelling activities: route_corr (the route starts at the vehicle's position and ends at the target's);
      - a trip starts only at the request's origin and ends only at its destination.
-   PARTIAL: the lift of these per-transition facts to the state invariant Inv_loc over whole histories (which additionally
-   needs: stations/bases never move — C08_station_static — and move() keeps route start = position — C06) is decided by the
-   correspondence + monitor c07_location, not yet by a theorem. *)
+   Over whole histories (C07_places_over_histories, via the macro frame theorem): after every finite sequence of step
+   operations with instructions from any controller, every vehicle that is charging or queueing at a station is at that
+   station's location and every vehicle parked or charging at a base is at that base's location (stations and bases keep
+   their position; a stationary activity never moves the vehicle; the activity changes only through exit/enter).
+   PARTIAL: "a travelling vehicle's planned route always starts at its current position" over histories needs connected routes
+   (route_corr, like HIVE's route_cooresponds_with_entities, checks the two ends only) and is decided by correspondence +
+   monitor c07_location. *)
 From Hive.Base Require Import Prelude.
 From Hive.Model Require Import Types KernelBase SimOps States Step.
-From Hive.Proofs Require Import Guards.
+From Hive.Proofs Require Import Guards VehFrame Macro CountInv PlaceInv.
 
 Theorem C07_enter_checks_location : forall env vid st s s', vs_enter env (vid, st) s = Ok s' ->
   exists v st', find vid (vehicles s) = Some v /\ guard s v st' /\
@@ -31,6 +35,14 @@ Proof. exact trip_starts_at_origin. Qed.
 Theorem C07_trip_ends_at_destination : forall s vid q s', drop_off_trip s vid q = Ok s' -> (0 < r_npass q)%Z ->
   exists v, find vid (vehicles s) = Some v /\ p_geoid (r_dest q) = v_geoid v.
 Proof. exact trip_ends_at_destination. Qed.
+
+Theorem C07_places_over_histories : forall env ops s0, vkeys s0 -> Inv_place s0 -> Forall op_ok ops ->
+  forall vid v, find vid (vehicles (fold_left (step_op env) ops s0)) = Some v -> at_place (fold_left (step_op env) ops s0) v.
+Proof. exact places_over_histories. Qed.
+Theorem C07_initial_state : forall s, skeys (stations s) -> bkeys (bases s) ->
+  (forall k v, find k (vehicles s) = Some v -> exists d, v_state v = Idle d) -> Inv_place s.
+Proof. exact Inv_place_initial. Qed.
+Print Assumptions C07_places_over_histories. Print Assumptions C07_initial_state.
 
 Print Assumptions C07_enter_checks_location.
 Print Assumptions C07_route_corr_meaning.
